@@ -55,7 +55,7 @@ def coq_part(ctx, pid, extra_targets=()):
 
 
 def run_engine_check(ctx, pid, profiles, monitors, n_quick, n_thorough, known_ok=(), extra_cases=None, drained=True,
-                     with_data=None, case_filter=None):
+                     with_data=None, case_filter=None, subs=()):
     t0 = time.time()
     n = n_thorough if ctx.tier == "thorough" else n_quick
     for t in ENGINE_TRUSTED:
@@ -157,6 +157,10 @@ def run_engine_check(ctx, pid, profiles, monitors, n_quick, n_thorough, known_ok
         "runtime_s": round(time.time() - t0, 1),
     }
     run.close()
+    for subpid, module in subs:
+        vlib.run_sub(ctx, subpid, module)
+    if subs:
+        vlib.merge_sub_evidence(cov, [sp for sp, _ in subs])
     return ctx.finish(cov, assumptions=["sequential schedules at request/sweep granularity", "single shard, single database"])
 
 
